@@ -480,9 +480,13 @@ func check(prop, tr string) int {
 		"wall_s":      wall,
 		"violations":  violations,
 	}
-	_ = os.MkdirAll(filepath.Join(verifDir, "evidence"), 0o755)
+	evDir := filepath.Join(verifDir, "evidence")
+	if os.Getenv("VERIF_REPO") != "" {
+		evDir = scratch // self-test against a mutated copy: never touches the evidence of /repo
+	}
+	_ = os.MkdirAll(evDir, 0o755)
 	b, _ := json.MarshalIndent(ev, "", " ")
-	if err := os.WriteFile(filepath.Join(verifDir, "evidence", prop+".json"), b, 0o644); err != nil {
+	if err := os.WriteFile(filepath.Join(evDir, prop+".json"), b, 0o644); err != nil {
 		die(2, "write evidence: %v", err)
 	}
 
